@@ -87,8 +87,9 @@ def setup():
 
 
 def run_guppy(src):
-    """-> (outcome, line, var, message): outcome in ok | ND | DT | outside:<title> | crash:<bucket>;
-    line is relative to `src` (1 = first line of the function text)."""
+    """-> (outcome, line, var, message, label): outcome in ok | ND | DT | outside:<title> |
+    crash:<bucket>; line is relative to `src` (1 = first line of the function text); label is
+    'might' ("might be undefined") / 'isnot' ("is not defined") for ND."""
     from vlib import runner
 
     setup()
@@ -98,12 +99,12 @@ def run_guppy(src):
     finally:
         lm.dispose()
     if out.kind == "ok":
-        return "ok", None, None, ""
+        return "ok", None, None, "", None
     if out.kind == "crash":
-        return "crash:" + runner.crash_bucket(out.exc), None, None, out.message
+        return "crash:" + runner.crash_bucket(out.exc), None, None, out.message, None
     if out.kind != "rejected":
-        return "outside:" + out.kind, None, None, out.message
-    line = var = None
+        return "outside:" + out.kind, None, None, out.message, None
+    line = var = label = None
     try:
         from guppylang_internals.span import to_span
 
@@ -113,11 +114,12 @@ def run_guppy(src):
         if var is None and hasattr(err, "ident"):
             ident = err.ident
             var = ident.split("`")[1] if "`" in ident else None
+        label = {"VarMaybeNotDefinedError": "might", "VarNotDefinedError": "isnot"}.get(type(err).__name__)
     except Exception:  # noqa: BLE001
         pass
     if out.title in (ND, DT):
-        return out.title, line, var, out.message
-    return "outside:" + out.title, line, var, out.message
+        return out.title, line, var, out.message, label
+    return "outside:" + out.title, line, var, out.message, label
 
 
 def judge(src, exclude):
@@ -129,13 +131,15 @@ def judge(src, exclude):
     except (sm.ModelError, SyntaxError) as e:
         return {"status": "generr", "bucket": None, "detail": f"scopemodel cannot read generated program: {e!r}\n{src}",
                 "model": None, "outcome": None}
-    o, line, var, msg = run_guppy(src)
+    o, line, var, msg, label = run_guppy(src)
     res = {"model": m, "outcome": o, "bucket": None, "detail": None, "status": "ok"}
     if o.startswith("outside:"):
         res.update(status="outside", bucket=o, detail=msg[-1500:])
         return res
     if o.startswith("crash:"):
-        res.update(status="crash", bucket=o, detail=msg[-1500:])
+        # neither accepted nor rejected: the model always predicts one of the two
+        res.update(status="violation", bucket="crash." + o[6:],
+                   detail=f"compiler crashed; expected {sorted(m.verdict_A())}\n--- program\n{src}--- traceback\n{msg[-1500:]}")
         return res
     acc = m.acceptable(exclude)
     lit = "literal_folding" in exclude
@@ -159,13 +163,13 @@ def judge(src, exclude):
                 bucket = "missed.mistyped" + (f".{shape}" if shape.startswith(("literal", "unreachable")) else "")
             why = f"accepted, but line {r.line} reads `{r.var}` which is {which} (reaching: {sorted(r.tyL if lit and r.live_lit else r.tyA)})"
         elif o == ND:
-            shape = rep.shape() if rep is not None else "unknown"
-            bucket = "wrong_title" if TH else f"false.undefined.{shape}"
+            shape = rep.shape() if rep is not None else "not_a_local_read"
+            bucket = "wrong_title" if TH and shape != "unreachable_code" else f"false.undefined.{shape}"
             why = (f"rejected with `{ND}` for `{var}` at line {line}, but no read is reached by a path without an "
                    f"assignment" + ("; a read is mistyped, so `Different types` was expected" if TH else ""))
         else:
-            shape = rep.shape() if rep is not None else "unknown"
-            bucket = "wrong_title" if UH else \
+            shape = rep.shape() if rep is not None else "not_a_local_read"
+            bucket = "wrong_title" if UH and shape != "unreachable_code" else \
                 "false.mistyped" + (f".{shape}" if shape.startswith(("literal", "unreachable")) else "")
             why = (f"rejected with `{DT}` for `{var}` at line {line}, but no read is reached by two assignments of "
                    f"different types" + ("; a read is undefined, so `Variable not defined` was expected" if UH else ""))
@@ -177,6 +181,13 @@ def judge(src, exclude):
             bucket = f"wrong_location.{kind}"
             why = (f"rejected with `{o}` naming `{var}` at line {line}, but that is not a read of `{var}` that is "
                    f"{kind} (model at that read: {sorted(rep.tyM) if rep is not None else 'no such read'})")
+        elif o == ND and label is not None and m.label_ok(rep, label) is False:
+            # "might be undefined" = an assignment lies on some path to the use, "is not defined" = on none
+            bucket = "wrong_label." + label
+            un, asg = m.assigned_before(m.predsL, rep.node, rep.var)
+            why = (f"`{var}` at line {line} is reported as "
+                   f"{'might be undefined' if label == 'might' else 'is not defined'}, but "
+                   f"{'an' if asg else 'no'} assignment to `{var}` lies on a path to that use")
     if bucket:
         res.update(status="violation", bucket=bucket,
                    detail=f"{why}\nacceptable={sorted(acc)} observed={o}\n--- program\n{src}--- model (reaching types per read)\n"
@@ -239,8 +250,6 @@ def worker(ctx):
             ctx.label(r["bucket"])
             ctx.sample(r["bucket"], {"src": src, "why": r["detail"]})
             ctx.harness_error(f"generated program rejected with an out-of-domain title {r['bucket']}:\n{src}\n{r['detail'][-600:]}")
-        elif r["status"] == "crash":
-            ctx.harness_error(f"compiler crashed on a GenScope program ({r['bucket']}; C02's domain):\n{src}\n{r['detail'][-800:]}")
         elif r["status"] == "violation":
             ctx.violation(r["bucket"], {"src": src, "exclude": sorted(excl), "bucket": r["bucket"]}, r["detail"])
             found.setdefault(r["bucket"], src)
@@ -267,7 +276,7 @@ def worker(ctx):
 
 SPEC = harness.Spec(
     PROP, worker, replay,
-    rule=("GenScope draws functions over <=4 int/bool/float variables (type per assignment free in 60% of programs) with "
+    rule=("GenScope draws functions over <=4 int/bool/float variables (type per assignment free in 80% of programs) with "
           "<=20 statements, nesting <=4: assignments, copies `y = x`, reads (`result`, copy source, variable conditions, "
           "nested defs capturing outer variables) placed freely, if/elif/else, while, for over range, break/continue/"
           "return anywhere (so dead code occurs), 40% of programs with literal True/False conditions / `while True`. "
@@ -286,8 +295,8 @@ SPEC = harness.Spec(
     ],
     shards={"quick": 16, "thorough": 16},
     budget_s={"quick": 90, "thorough": 900},
-    params={"quick": {"n": 1200}, "thorough": {"n": 20000}},
-    min_nontrivial=600,
+    params={"quick": {"n": 800}, "thorough": {"n": 20000}},
+    min_nontrivial=400,
 )
 
 if __name__ == "__main__":
